@@ -24,8 +24,14 @@ OUTCOMES = {'ok': '200', 'red': '302', 'r404': '404', 'x409': '409', 'nb403': '4
             # HTTPExceptions of the underlying library (werkzeug.exceptions): they have a code, too
             'wz410': '410', 'wzkey': '400', 'wzabort': '418',
             # responses that carry no Content-Type header at all
-            'nocontent': '204', 'notmod': '304'}
+            'nocontent': '204', 'notmod': '304',
+            # exceptions that are NOT HTTPExceptions but happen to carry a code attribute (expat, subprocess, application errors)
+            'coded': "'CodedError'", 'expat': "'ExpatError'"}
 NONBREAKING = ('nb403', 'nbret404')
+
+
+class CodedError(Exception):
+    code = 'E42'
 
 
 def make_ep(out):
@@ -60,6 +66,11 @@ def make_ep(out):
             resp = Response(b'', status={'nocontent': 204, 'notmod': 304}[out])
             resp.headers.pop('Content-Type', None)
             return resp
+        if out == 'coded':
+            raise CodedError('application error E42')
+        if out == 'expat':
+            import xml.parsers.expat
+            xml.parsers.expat.ParserCreate().Parse('<a><b></a>', True)
         if out == 'wz410':
             from werkzeug.exceptions import Gone
             raise Gone()
